@@ -28,15 +28,16 @@ def mk(t0, t1):
     return Element.from_tag(p), p, sp
 
 
-def repl_count(t0: str, t1: str) -> bool:
+def repl_count(t0: str, t1: str, formatted: bool) -> bool:
     """
     pre: len(t0) <= 2 and len(t1) <= 2 and all(c in "ab" for c in t0 + t1)
     post: _
     """
-    # count-only: number of non-overlapping matches within the individual text runs; nothing changes
+    # count-only (with or without the formatted flag): number of non-overlapping matches within the
+    # individual text runs; nothing changes
     e, p, sp = mk(t0, t1)
     before = S.canon(p)
-    n = e.replace(PAT)
+    n = e.replace(PAT, formatted=formatted)
     exp = len(re.findall(PAT, t0)) + len(re.findall(PAT, t1)) + len(re.findall(PAT, TAIL))
     return done(n == exp and S.canon(p) == before and e.replace(PAT) == exp)
 
@@ -125,3 +126,18 @@ def repl_formatted_tree(t0: str, t1: str) -> bool:
     cnt = len(re.findall("x", t0)) + len(re.findall("x", t1)) + 1
     node = p._Element__element
     return done(n == cnt and S.plain_text(node) == exp and S.collapse_tree(node) == exp)
+
+
+def count_pure_ws(t: str) -> bool:
+    """
+    pre: len(t) <= 3 and all(c in "a \t" for c in t)
+    post: _
+    """
+    # counting with formatted=True on raw text holding tabs / runs of spaces must not re-encode it
+    p = ET.Element(S.TXT + "p")
+    p.text = t
+    e = Element.from_tag(p)
+    before = S.canon(p)
+    n1 = e.replace("a", formatted=True)
+    n2 = e.replace("a", formatted=True)
+    return done(S.canon(p) == before and n1 == n2 == len(re.findall("a", t)))
